@@ -122,7 +122,10 @@ structure Subject where
   /-- block processing control flags of the canonical blocks whose type this node does not know,
   in the order of `Bundle.CanonicalBlocks` -/
   blocks : List Nat := []
-  /-- `BundleDescriptor.Receiver` (`dtn:none` unless a convergence layer set it) -/
+  /-- `BundleDescriptor.Receiver` (`dtn:none` unless a convergence layer set it). On the retry path
+  the descriptor is rebuilt from the store: the receiver then is the stored item's
+  `bundlepack/receiver` property, which only a `Sync` with constraints writes — a bundle that was
+  never dispatched after its reception comes back with `dtn:none`. -/
   receiver : Eid := .none
 deriving Repr
 
@@ -292,6 +295,19 @@ def flowOutcomes (s : Subject) : Flow → List Outcome
 def flowReports (cfg : Cfg) (n : Node) (s : Subject) (now : Nat) (fl : Flow) : List Report :=
   (flowOutcomes s fl).flatMap (processOutcome cfg n s now)
 
+/-- What the store's index keeps of a bundle's ID (`newBundleItem`: `BId: bid.Scrub()`): source and
+creation timestamp, *without* the fragment offset and total length. -/
+def storedId (s : Subject) : BundleId := { s.id with frag := none }
+
+/-- The `Id` of the `BundleDescriptor` a flow works with. `receive` and `SendBundle` build it from
+the bundle (`NewBundleDescriptorFromBundle`: `b.ID()`); `checkPendingBundles` rebuilds it from the
+store (`NewBundleDescriptor(bi.BId, …)`), i.e. from the scrubbed ID — the bundle itself
+(`descriptor.Bundle()`, loaded from the stored bytes) still is the subject `s` with all its fields.
+`sendStatusReport` takes the reference from the bundle (`bndl.ID()`), never from the descriptor. -/
+def descriptorId (s : Subject) : Flow → BundleId
+  | .retry _ => storedId s
+  | _ => s.id
+
 /-- A report bundle seen as a subject when it re-enters some node (`receive` or `SendBundle`);
 creation timestamp, unknown blocks and receiver are whatever the environment chooses. -/
 def Report.asSubject (r : Report) (time seq : Nat) (blocks : List Nat) (receiver : Eid) : Subject :=
@@ -429,8 +445,8 @@ def reportJustifiedFail (s : Subject) (evs : List Event) (r : Report) : Option S
   else if has r.flags fReqAll then some "report-carries-request-flags"
   else if r.destination ≠ s.reportTo then some "report-not-addressed-to-report-to"
   else if r.ref ≠ s.id then
-    (if r.ref.scrub = s.id.scrub then some "report-ref-fragment-fields-differ"
-     else some "report-ref-is-not-the-bundle-id")
+    (if r.ref.scrub = s.id.scrub then some "report-ref-not-exact-id-fragment-fields-differ"
+     else some "report-ref-not-exact-id")
   else if !timesOk s.reqTime r.items then
     (if s.reqTime then some "report-time-missing-though-requested"
      else some "report-time-present-though-not-requested")
